@@ -3,7 +3,7 @@
 /verif/seeded/<ID>-<k>/ (patch.diff, demonstration files, meta.json)."""
 import json, os, shutil, sys
 for pid in sys.argv[1:]:
-    base = f"/tmp/seed/{pid}/out"
+    base = f"{os.environ.get('SEED_BASE', '/tmp/seed')}/{pid}/out"
     for k in sorted(os.listdir(base)):
         src = os.path.join(base, k)
         if not os.path.isfile(os.path.join(src, "patch.diff")):
